@@ -496,15 +496,29 @@ func (s *Stream) ensureAnalytic() {
 	})
 }
 
-// evalAnalytic 求值分析函数并把结果注入 dataMap（供 WHERE 占位符引用），返回结果供投影。
-// 在 WHERE 之前调用（分析函数最先求值，不受 WHERE 影响）。
+// evalAnalytic 求值分析函数，返回结果供投影与（必要时）WHERE 注入。不修改 dataMap。
 func (s *Stream) evalAnalytic(dataMap map[string]any) map[string]any {
 	s.ensureAnalytic()
 	if s.analytic == nil || !s.analytic.HasFields() {
 		return nil
 	}
-	results := s.analytic.Evaluate(dataMap)
-	// SELECT 分析函数注入 dataMap：多列函数按 prefix+列名 扇出，供 WHERE/HAVING 引用。
+	return s.analytic.Evaluate(dataMap)
+}
+
+// withAnalyticForWhere returns the row the rewritten WHERE is evaluated against:
+// a private shallow copy of dataMap carrying the SELECT analytic aliases and the
+// WHERE placeholders (__analytic_N__). dataMap itself may be the map the caller
+// passed to Emit/EmitSync, so it is never written; the copy is used for the
+// predicate only, so placeholders cannot leak into SELECT * output.
+func (s *Stream) withAnalyticForWhere(dataMap, results map[string]any) map[string]any {
+	if results == nil {
+		return dataMap
+	}
+	row := make(map[string]any, len(dataMap)+len(results))
+	for k, v := range dataMap {
+		row[k] = v
+	}
+	// SELECT 分析函数注入：多列函数按 prefix+列名 扇出，供 WHERE 引用。
 	for _, af := range s.config.AnalyticFields {
 		v, ok := results[af.Alias]
 		if !ok {
@@ -513,20 +527,20 @@ func (s *Stream) evalAnalytic(dataMap map[string]any) map[string]any {
 		if af.MultiColumn {
 			if m, ok := v.(map[string]any); ok {
 				for k, vv := range m {
-					dataMap[k] = vv
+					row[k] = vv
 				}
 			}
 			continue
 		}
-		dataMap[af.Alias] = v
+		row[af.Alias] = v
 	}
 	// WHERE 占位符调用：注入占位符键值，供改写后的 WHERE 引用。
 	for _, wc := range s.config.WhereAnalyticCalls {
 		if v, ok := results[wc.Placeholder]; ok {
-			dataMap[wc.Placeholder] = v
+			row[wc.Placeholder] = v
 		}
 	}
-	return results
+	return row
 }
 
 // projectAnalytic 把 SELECT 分析函数结果写入投影输出：单列按 alias，多列按 prefix+列名 扇出。
@@ -658,10 +672,12 @@ func (s *Stream) enrichData(data map[string]any) (dataMap map[string]any, keep b
 // 返回分析结果（供投影）与是否通过过滤。同步/异步直连路径共用。
 func (s *Stream) applyWhereAndAnalytic(dataMap map[string]any) (analyticResults map[string]any, keep bool) {
 	whereUsesAnalytic := len(s.config.WhereAnalyticCalls) > 0
+	whereRow := dataMap
 	if whereUsesAnalytic {
 		analyticResults = s.evalAnalytic(dataMap)
+		whereRow = s.withAnalyticForWhere(dataMap, analyticResults)
 	}
-	if s.filter != nil && !s.filter.Evaluate(dataMap) {
+	if s.filter != nil && !s.filter.Evaluate(whereRow) {
 		return nil, false
 	}
 	if !whereUsesAnalytic {
